@@ -79,7 +79,8 @@ ModV(x, y) ==
   ELSE Unspec
 
 CmpV(op, x, y) ==
-  IF ~(IsNum(x) /\ IsNum(y)) THEN Err
+  IF (x.t = "bigint" \/ IsNum(x)) /\ (y.t = "bigint" \/ IsNum(y)) /\ (x.t = "bigint" \/ y.t = "bigint") THEN Unspec
+  ELSE IF ~(IsNum(x) /\ IsNum(y)) THEN Err
   ELSE IF ~(AddOK(x) /\ AddOK(y)) THEN Unspec
   ELSE LET c == NumCmp(x, y) IN
        B(CASE op = "lt" -> c < 0 [] op = "gt" -> c > 0 [] op = "le" -> c <= 0 [] op = "ge" -> c >= 0)
@@ -90,6 +91,7 @@ EqV(x, y, neg) ==
 NegV(x) ==
   CASE x.t = "int" -> IF IntAddOK(x.v) THEN I(-x.v) ELSE Unspec
     [] x.t = "float" -> IF x.num = 0 THEN Unspec ELSE F(-x.num, x.sh)
+    [] x.t = "bigint" -> IF SubSeq(x.v, 1, 1) = "-" THEN Big(SubSeq(x.v, 2, Len(x.v))) ELSE Big("-" \o x.v)
     [] OTHER -> Unspec
 
 \* floor of a number
@@ -204,6 +206,7 @@ Eval(e, env) ==
     [] e.k = "bool" -> B(e.v)
     [] e.k = "int" -> I(e.v)
     [] e.k = "float" -> F(e.num, e.sh)
+    [] e.k = "bigint" -> Big(e.v)
     [] e.k = "str" -> S(e.v)
     [] e.k = "list" ->
          LET xs == EvalSeq(e.items, env, 1) b == FirstBad(xs) IN
